@@ -430,15 +430,17 @@ def cli_keep_going(ctx):
                 paths = [p if usable(p) else '' for p in paths]
                 with ET.ScandirOrder(key):
                     rc, items = run_cli_collect(['gemato', 'verify', '--keep-going', '--no-openpgp-verify'] + [os.path.join(b, p) if p else b for p in paths])
-                    libs = [ET.run_impl(b, 'Manifest', c.opts, False, True, [['verify', p, 1, []]], key) for p in paths]
+                    # (the command-line tool asks for the TIMESTAMP first, on the same loader: that decides which Manifests are
+                    #  loaded when, and so where a broken reference is noticed)
+                    libs = [ET.run_impl(b, 'Manifest', c.opts, False, True, [['find_timestamp'], ['verify', p, 1, []]], key) for p in paths]
             finally:
                 sc.cleanup(b, s)
             n += 1
             multi += k > 1
             want_items, want_rc, raised = [], 0, False
             for lib in libs:
-                if lib[0] == 'ok' and lib[1] and lib[1][0][0] == 'ok':
-                    ok, calls = lib[1][0][1]
+                if lib[0] == 'ok' and len(lib[1]) == 2 and lib[1][0][0] == 'ok' and lib[1][1][0] == 'ok':
+                    ok, calls = lib[1][1][1]
                     want_items += [[x[0], list(x[1])] for x in calls]
                     if not ok:
                         want_rc = 1
